@@ -6,7 +6,7 @@
    string. *)
 From Coq Require Import List NArith ZArith Bool Lia ZifyBool Arith.
 Import ListNotations.
-Require Import Base.Wire Base.PyStr C13.Utf8 C13.Model C13.Lemmas C13.Roundtrip.
+Require Import Base.Wire Base.PyStr C13.Utf8 C13.Model C13.Lemmas C13.Roundtrip C13.Dqrepr.
 Require gen.T13.
 Open Scope N_scope.
 
@@ -34,13 +34,18 @@ Variable named : bytes -> option N.
 Variable t : tk.
 Variables lb rb : N.
 Hypothesis Hbrk : brk t = Some (lb, rb).
-Hypothesis Hq : mem DQ (quotes t) = true.
 Hypothesis Hwl : is_ws lb = false.
 Hypothesis Hwr : is_ws rb = false.
 Hypothesis Hql : mem lb (quotes t) = false.
 Hypothesis Hqr : mem rb (quotes t) = false.
 Hypothesis Hlr : lb =? rb = false.
 Hypothesis Hlp : lb =? T13.PIPE = false.
+(* the quoting function (minimal_quote or dqrepr) and the arguments it is good for *)
+Variable Qf : str -> str.
+Variable good : str -> bool.
+Hypothesis HlexQ : forall a rest, good a = true -> lex t LSp [] (Qf a ++ rest) = emit (Qf a) (lex t LSp [] rest).
+Hypothesis HtwoQ : forall a, exists y r, Qf a = DQ :: y :: r.
+Hypothesis HhandleQ : forall a, good a = true -> handle_token named t (Qf a) = Ok a.
 
 (* ---- lexer ---- *)
 Lemma seps_brackets : mem lb (seps t) = true /\ mem rb (seps t) = true.
@@ -65,28 +70,31 @@ Proof.
 Qed.
 
 Lemma lex_join_quoted_tail args tail :
-  lex t LSp [] (join [SP] (map minimal_quote args) ++ tail)
-  = emits (map minimal_quote args) (lex t LSp [] tail).
+  Forall (fun a => good a = true) args ->
+  lex t LSp [] (join [SP] (map Qf args) ++ tail)
+  = emits (map Qf args) (lex t LSp [] tail).
 Proof.
-  induction args as [|a args IH]; [rewrite emits_nil; reflexivity|].
+  induction args as [|a args IH]; intro Hall; [rewrite emits_nil; reflexivity|].
+  inversion Hall as [|? ? Ha Hr]; subst. specialize (IH Hr).
   destruct args as [|b args'].
-  - cbn [map join]. rewrite lex_minimal_quote by exact Hq. reflexivity.
-  - change (join [SP] (map minimal_quote (a :: b :: args')))
-      with (minimal_quote a ++ [SP] ++ join [SP] (map minimal_quote (b :: args'))).
-    rewrite <- !app_assoc. rewrite lex_minimal_quote by exact Hq.
+  - cbn [map join]. rewrite HlexQ by exact Ha. reflexivity.
+  - change (join [SP] (map Qf (a :: b :: args')))
+      with (Qf a ++ [SP] ++ join [SP] (map Qf (b :: args'))).
+    rewrite <- !app_assoc. rewrite HlexQ by exact Ha.
     cbn [app]. cbn [lex]. destruct ws_facts as [_ Hs]. rewrite Hs.
     rewrite IH. reflexivity.
 Qed.
 
 Definition nested_text (n : nat) (args : list str) : str :=
-  repeat lb n ++ join [SP] (map minimal_quote args) ++ repeat rb n.
+  repeat lb n ++ join [SP] (map Qf args) ++ repeat rb n.
 Definition nested_toks (n : nat) (args : list str) : list str :=
-  repeat [lb] n ++ map minimal_quote args ++ repeat [rb] n.
+  repeat [lb] n ++ map Qf args ++ repeat [rb] n.
 
-Lemma lex_nested n args : lex_all t (nested_text n args) = (nested_toks n args, None).
+Lemma lex_nested n args :
+  Forall (fun a => good a = true) args -> lex_all t (nested_text n args) = (nested_toks n args, None).
 Proof.
-  unfold lex_all, nested_text, nested_toks. rewrite lex_lefts.
-  rewrite lex_join_quoted_tail.
+  intro Hall. unfold lex_all, nested_text, nested_toks. rewrite lex_lefts.
+  rewrite lex_join_quoted_tail by exact Hall.
   rewrite lex_rights. unfold emits. cbn [fst snd]. reflexivity.
 Qed.
 
@@ -95,17 +103,17 @@ Lemma br_facts : is_left t [lb] = true /\ is_right t [lb] = false /\ is_right t 
 Proof. unfold is_left, is_right. rewrite Hbrk. cbn [seq_eqb]. rewrite !N.eqb_refl, Hlr. auto. Qed.
 
 Lemma quoted_not_bracket a :
-  is_left t (minimal_quote a) = false /\ is_right t (minimal_quote a) = false
-  /\ seq_eqb (minimal_quote a) [T13.PIPE] = false.
+  is_left t (Qf a) = false /\ is_right t (Qf a) = false
+  /\ seq_eqb (Qf a) [T13.PIPE] = false.
 Proof.
-  destruct (minimal_quote_two a) as [y [r E]]. unfold is_left, is_right. rewrite Hbrk, E.
+  destruct (HtwoQ a) as [y [r E]]. unfold is_left, is_right. rewrite Hbrk, E.
   rewrite !seq_eqb_two. auto.
 Qed.
 
 Lemma inside_quoted args : forall f rest e ret,
-  Forall (fun a => forallb scalar a = true) args ->
-  (length (map minimal_quote args ++ [rb] :: rest) < f)%nat ->
-  inside named t f (map minimal_quote args ++ [rb] :: rest) e ret = Ok (rev ret ++ map Leaf args, rest).
+  Forall (fun a => good a = true) args ->
+  (length (map Qf args ++ [rb] :: rest) < f)%nat ->
+  inside named t f (map Qf args ++ [rb] :: rest) e ret = Ok (rev ret ++ map Leaf args, rest).
 Proof.
   destruct br_facts as [_ [_ Hrr]].
   induction args as [|a args IH]; intros f rest e ret Hall Hf.
@@ -113,14 +121,14 @@ Proof.
   - inversion Hall as [|? ? Ha Hr]; subst. cbn [map app] in *.
     destruct f; [inversion Hf|]. apply ltl_tail in Hf. cbn [inside].
     destruct (quoted_not_bracket a) as [Q1 [Q2 _]]. rewrite Q2, Q1.
-    rewrite (handle_minimal_quote named t a Hq Ha).
+    rewrite (HhandleQ a Ha).
     rewrite IH by assumption. cbn [rev]. rewrite <- app_assoc. reflexivity.
 Qed.
 
 Lemma inside_nested args n : forall f rest e,
-  Forall (fun a => forallb scalar a = true) args ->
-  (length (repeat [lb] n ++ map minimal_quote args ++ repeat [rb] n ++ [rb] :: rest) < f)%nat ->
-  inside named t f (repeat [lb] n ++ map minimal_quote args ++ repeat [rb] n ++ [rb] :: rest) e []
+  Forall (fun a => good a = true) args ->
+  (length (repeat [lb] n ++ map Qf args ++ repeat [rb] n ++ [rb] :: rest) < f)%nat ->
+  inside named t f (repeat [lb] n ++ map Qf args ++ repeat [rb] n ++ [rb] :: rest) e []
   = Ok (nest n (map Leaf args), rest).
 Proof.
   destruct br_facts as [Hll [Hrl Hrr]].
@@ -133,20 +141,32 @@ Proof.
     destruct f; [inversion Hf|]. cbn [inside]. rewrite Hrr. reflexivity.
 Qed.
 
+Lemma top_Q args : forall f acc,
+  Forall (fun a => good a = true) args -> (length args < f)%nat ->
+  top named t f (map Qf args) None acc [] = Ok (rev acc ++ map Leaf args).
+Proof.
+  induction args as [|a args IH]; intros f acc Hall Hf.
+  - destruct f; [inversion Hf|]. cbn [map top finish]. rewrite app_nil_r. reflexivity.
+  - destruct f; [inversion Hf|]. inversion Hall as [|? ? Ha Hr]; subst. cbn [map top].
+    destruct (quoted_not_bracket a) as [Q1 [Q2 Q3]]. rewrite Q3, Q1, Q2. cbn [andb].
+    rewrite (HhandleQ a Ha). rewrite IH; [|exact Hr|apply Nat.succ_lt_mono; exact Hf].
+    cbn [rev]. rewrite <- app_assoc. reflexivity.
+Qed.
+
 Lemma top_nested args n :
-  Forall (fun a => forallb scalar a = true) args ->
+  Forall (fun a => good a = true) args ->
   top named t (S (length (nested_toks n args))) (nested_toks n args) None [] []
   = Ok (nest n (map Leaf args)).
 Proof.
   destruct br_facts as [Hll [Hrl Hrr]]. intro Hall. unfold nested_toks.
   destruct n as [|n].
   - cbn [repeat app nest]. rewrite app_nil_r.
-    rewrite top_quoted; [reflexivity|exact Hq|exact Hall|rewrite map_length; apply Nat.lt_succ_diag_r].
+    rewrite top_Q; [reflexivity|exact Hall|rewrite map_length; apply Nat.lt_succ_diag_r].
   - cbn [repeat app length]. cbn [top].
     assert (Hp : seq_eqb [lb] [T13.PIPE] = false) by (cbn [seq_eqb]; rewrite Hlp; reflexivity).
     rewrite Hp, Hll. cbn [andb].
-    assert (E : repeat [lb] n ++ map minimal_quote args ++ [rb] :: repeat [rb] n
-                = repeat [lb] n ++ map minimal_quote args ++ repeat [rb] n ++ [rb] :: []).
+    assert (E : repeat [lb] n ++ map Qf args ++ [rb] :: repeat [rb] n
+                = repeat [lb] n ++ map Qf args ++ repeat [rb] n ++ [rb] :: []).
     { f_equal. f_equal. change ([rb] :: repeat [rb] n) with (repeat [rb] (S n)).
       rewrite <- (app_nil_r (repeat [rb] (S n))). rewrite repeat_snoc. reflexivity. }
     rewrite E. rewrite inside_nested; [|exact Hall|apply Nat.lt_succ_diag_r].
@@ -154,10 +174,10 @@ Proof.
 Qed.
 
 Theorem tokenizer_quote_roundtrip_nested n args :
-  Forall (fun a => forallb scalar a = true) args ->
+  Forall (fun a => good a = true) args ->
   tokenizer_tokenize named t (nested_text n args) = Ok (nest n (map Leaf args)).
 Proof.
-  intro Hall. unfold tokenizer_tokenize. rewrite lex_nested. apply top_nested. exact Hall.
+  intro Hall. unfold tokenizer_tokenize. rewrite lex_nested by exact Hall. apply top_nested. exact Hall.
 Qed.
 
 End Nested.
@@ -173,17 +193,39 @@ Lemma valid_brackets_lex_ok :
                     end) T13.VALID_BRACKETS = true.
 Proof. vm_compute. reflexivity. Qed.
 
+Definition nested_mq lb rb := nested_text lb rb minimal_quote.
+Definition nested_dq lb rb := nested_text lb rb dqrepr.
+
 Theorem quote_roundtrip_nested named (c : cfg) lb rb n args :
   c_nested c = true -> c_brackets c = Some (lb, rb) -> mem DQ (c_quotes c) = true ->
   is_ws lb = false -> is_ws rb = false ->
   mem lb (c_quotes c) = false -> mem rb (c_quotes c) = false ->
   lb =? rb = false -> lb =? T13.PIPE = false ->
   Forall (fun a => forallb scalar a = true) args ->
-  tokenize named c (nested_text lb rb n args) = Ok (nest n (map Leaf args)).
+  tokenize named c (nested_mq lb rb n args) = Ok (nest n (map Leaf args)).
 Proof.
-  intros Hn Hb Hq H1 H2 H3 H4 H5 H6 Hall. unfold tokenize, tk_of. rewrite Hn.
-  rewrite (tokenizer_quote_roundtrip_nested named (Tk (c_brackets c) (c_pipe c) (c_quotes c)) lb rb);
-    try assumption; reflexivity.
+  intros Hn Hb Hq H1 H2 H3 H4 H5 H6 Hall. unfold tokenize, tk_of, nested_mq. rewrite Hn.
+  rewrite (tokenizer_quote_roundtrip_nested named (Tk (c_brackets c) (c_pipe c) (c_quotes c)) lb rb Hb H1 H2 H3 H4 H5 H6
+             minimal_quote (forallb scalar)); try assumption; try reflexivity.
+  - intros a rest _. apply lex_minimal_quote. exact Hq.
+  - apply minimal_quote_two.
+  - intros a Ha. apply handle_minimal_quote; assumption.
+Qed.
+
+Theorem dqrepr_roundtrip_nested named (c : cfg) lb rb n args :
+  c_nested c = true -> c_brackets c = Some (lb, rb) -> mem DQ (c_quotes c) = true ->
+  is_ws lb = false -> is_ws rb = false ->
+  mem lb (c_quotes c) = false -> mem rb (c_quotes c) = false ->
+  lb =? rb = false -> lb =? T13.PIPE = false ->
+  Forall (fun a => forallb valid_cp a = true) args ->
+  tokenize named c (nested_dq lb rb n args) = Ok (nest n (map Leaf args)).
+Proof.
+  intros Hn Hb Hq H1 H2 H3 H4 H5 H6 Hall. unfold tokenize, tk_of, nested_dq. rewrite Hn.
+  rewrite (tokenizer_quote_roundtrip_nested named (Tk (c_brackets c) (c_pipe c) (c_quotes c)) lb rb Hb H1 H2 H3 H4 H5 H6
+             dqrepr (forallb valid_cp)); try assumption; try reflexivity.
+  - intros a rest Ha. apply (lex_dqrepr named); assumption.
+  - apply dqrepr_two.
+  - intros a Ha. apply handle_dqrepr; assumption.
 Qed.
 
 (* non-vacuity: the arguments of the independent mutation's demo, two levels deep, pipe on *)
@@ -191,6 +233,7 @@ Example nested_example named :
   let c := Cfg true (Some (91, 93)) true [DQ; 39] in
   let args := [[97]; [93]; [91]; [124]; [DQ]; [BSL]; []; [0xE9; 0x597D]] in
   Forall (fun a => forallb scalar a = true) args
-  /\ nested_text 91 93 2 [[93]] = [91; 91; DQ; 93; DQ; 93; 93]
-  /\ tokenize named c (nested_text 91 93 2 args) = Ok [Node [Node (map Leaf args)]].
-Proof. split; [repeat constructor|split; vm_compute; reflexivity]. Qed.
+  /\ nested_mq 91 93 2 [[93]] = [91; 91; DQ; 93; DQ; 93; 93]
+  /\ tokenize named c (nested_mq 91 93 2 args) = Ok [Node [Node (map Leaf args)]]
+  /\ tokenize named c (nested_dq 91 93 2 ([0xC2; 0x80] :: [0xD800] :: args)) = Ok [Node [Node (map Leaf ([0xC2; 0x80] :: [0xD800] :: args))]].
+Proof. split; [repeat constructor|repeat split; vm_compute; reflexivity]. Qed.
